@@ -663,4 +663,81 @@ theorem updAdd_inv13 {s s' : State} {k ai : Nat} (h : updAdd s k ai = .ok s') (h
     exact inv13_add_core hi ha rfl rfl rfl rfl hnb rfl rfl hspa rfl rfl
   · cases h
 
+/-- replace the blobber allocation of a live blobber `ri` by one of blobber `ai` -/
+theorem inv13_replace_core {s s' : State} {k ai ri : Nat} {a a' : Alloc} {d ba : BA} {nb nb' rb rb' : Blobber} {spa spa' spr spr' : SP}
+    (h : Inv13 s) (ha : s.allocs k = some a) (hal : s'.allocs = s.allocs.set k (some a')) (hn : s'.nallocs = s.nallocs)
+    (hd : findBA a.bas ri = some d) (hbas : a'.bas = setBA a.bas ri ba) (hba : ba.blobber = ai) (hne : ai ≠ ri)
+    (hnb : s.blobbers ai = some nb) (hrb : s.blobbers ri = some rb)
+    (hbl : s'.blobbers = (s.blobbers.set ri (some rb')).set ai (some nb'))
+    (hnb' : nb'.allocated = nb.allocated + ba.size) (hrb' : rb'.allocated = rb.allocated - d.size)
+    (hspa : s.sps ai = some spa) (hspr : s.sps ri = some spr)
+    (hsp : s'.sps = (s.sps.set ri (some spr')).set ai (some spa'))
+    (hspa' : spa'.offers = spa.offers + ba.offer) (hspr' : spr'.offers + d.offer = spr.offers) :
+    Inv13 s' := by
+  have hk := h.1.lt ha
+  have hdb := findBA_blobber hd
+  have key := fun (m : BA → Nat) i => baSum_setBA (m := m) (i := i) (d' := ba) hd
+  refine inv13_set_delta hk hal hn (fun i => ?_) (fun i => ?_) h
+  · by_cases hx : i = ai
+    · subst hx
+      refine ⟨ba.size, 0, ?_, ?_, fun hn => by rw [hnb] at hn; cases hn⟩
+      · have := key BA.size i
+        have h1 : ¬ d.blobber = i := by rw [hdb]; exact fun e => hne e.symm
+        rw [ha]; simp only [allocSum, hbas]
+        simp only [h1, hba, if_true, if_false] at this; omega
+      · rw [hbl, view_set_same, hnb]; simp only [Option.map_some] <;> (congr 1 <;> omega)
+    · by_cases hy : i = ri
+      · subst hy
+        refine ⟨0, d.size, ?_, ?_, fun hn => by rw [hrb] at hn; cases hn⟩
+        · have := key BA.size i
+          have h1 : ¬ ba.blobber = i := by rw [hba]; exact hne
+          rw [ha]; simp only [allocSum, hbas]
+          simp only [h1, hdb, if_true, if_false] at this; omega
+        · rw [hbl, view_set_other _ _ _ hx, view_set_same, hrb]; simp only [Option.map_some] <;> (congr 1 <;> omega)
+      · refine ⟨0, 0, ?_, ?_, fun _ => ⟨rfl, rfl⟩⟩
+        · have := key BA.size i
+          have h1 : ¬ ba.blobber = i := by rw [hba]; exact fun e => hx e.symm
+          have h2 : ¬ d.blobber = i := by rw [hdb]; exact fun e => hy e.symm
+          rw [ha]; simp only [allocSum, hbas]
+          simp only [h1, h2, if_false] at this; omega
+        · rw [hbl, view_set_other _ _ _ hx, view_set_other _ _ _ hy, map_id_int]
+  · by_cases hx : i = ai
+    · subst hx
+      refine ⟨ba.offer, 0, ?_, ?_, fun hn => by rw [hspa] at hn; cases hn⟩
+      · have := key BA.offer i
+        have h1 : ¬ d.blobber = i := by rw [hdb]; exact fun e => hne e.symm
+        rw [ha]; simp only [allocSum, hbas]
+        simp only [h1, hba, if_true, if_false] at this; omega
+      · rw [hsp, view_set_same, hspa]; simp only [Option.map_some] <;> (congr 1 <;> omega)
+    · by_cases hy : i = ri
+      · subst hy
+        refine ⟨0, d.offer, ?_, ?_, fun hn => by rw [hspr] at hn; cases hn⟩
+        · have := key BA.offer i
+          have h1 : ¬ ba.blobber = i := by rw [hba]; exact hne
+          rw [ha]; simp only [allocSum, hbas]
+          simp only [h1, hdb, if_true, if_false] at this; omega
+        · rw [hsp, view_set_other _ _ _ hx, view_set_same, hspr]; simp only [Option.map_some] <;> (congr 1 <;> omega)
+      · refine ⟨0, 0, ?_, ?_, fun _ => ⟨rfl, rfl⟩⟩
+        · have := key BA.offer i
+          have h1 : ¬ ba.blobber = i := by rw [hba]; exact fun e => hx e.symm
+          have h2 : ¬ d.blobber = i := by rw [hdb]; exact fun e => hy e.symm
+          rw [ha]; simp only [allocSum, hbas]
+          simp only [h1, h2, if_false] at this; omega
+        · rw [hsp, view_set_other _ _ _ hx, view_set_other _ _ _ hy]
+
+theorem updReplaceAlive_inv13 {s s' : State} {k ai ri rw cc dp : Nat}
+    (h : updReplaceAlive s k ai ri rw cc dp = .ok s') (hi : Inv13 s) : Inv13 s' := by
+  unfold updReplaceAlive at h
+  split at h
+  · rename_i a cp nb spa rb spr ha hcp hnb hspa hrb hspr
+    split at h
+    · cases h
+    · rename_i d hd
+      ok_branches h
+      rename_i _ hne _ hoff _ _
+      have hne' : ai ≠ ri := fun e => hne (Or.inl e)
+      refine inv13_replace_core (d := d) hi ha rfl rfl hd rfl rfl hne' hnb hrb rfl rfl rfl hspa hspr rfl rfl ?_
+      simp only; omega
+  · cases h
+
 end ZChain.Storage
